@@ -31,9 +31,37 @@ def run(eng: Engine, ck: Check):
     repo = eng.repo
     srp = eng.func(UTILS, 'split_remote_path')
     ck.visited(srp)
-    split_clean = rejects_dot_components(srp, repo)
-    comp = [n for n in walk_local(srp.node) if isinstance(n, ast.ListComp)]
-    drops_empty = bool(comp) and any(isinstance(i, ast.Name) or 'part' in unparse(i) for g in comp[0].generators for i in g.ifs)
+    # the conditions under which split_remote_path KEEPS a component: the `if`s of the comprehension it returns, or the guards of the
+    # append in the loop that builds the list
+    kept: list[tuple[str, list[tuple[ast.AST, bool]]]] = []
+    for n in walk_local(srp.node):
+        if isinstance(n, (ast.ListComp, ast.GeneratorExp)) and len(n.generators) == 1 and isinstance(n.generators[0].target, ast.Name) and \
+                unparse(n.elt) == n.generators[0].target.id and any(call_name(x) == 'split' for x in ast.walk(n.generators[0].iter)):
+            kept.append((n.generators[0].target.id, [a_ for i_ in n.generators[0].ifs for a_ in split_conj(i_, True)]))
+        if isinstance(n, ast.Call) and call_name(n) == 'append' and len(n.args) == 1 and isinstance(n.args[0], ast.Name):
+            lp_ = next((a_ for a_ in ancestors(n) if isinstance(a_, ast.For) and isinstance(a_.target, ast.Name) and a_.target.id == n.args[0].id), None)
+            if lp_ is not None and any(call_name(x) == 'split' for x in ast.walk(expand_aliases(srp, lp_.iter))):
+                kept.append((lp_.target.id, [(e_, pol_) for e_, pol_, _ in eng.guards_at(srp, n)]))
+    ck.floor('R-C09-TAINT.split_keeps', len(kept), 1)
+
+    def excluded_literals(v: str, atoms) -> set:
+        out = set()
+        for e_, pol_ in atoms:
+            a_ = cmp_atom(e_)
+            if a_ and a_[0] in ('in', 'eq') and not pol_ and unparse(a_[1]) == v:
+                rhs = a_[2]
+                if isinstance(rhs, ast.Name):
+                    d = const_value(repo, srp.module, rhs.id)
+                    if d is None:
+                        imp = srp.module.imports.get(rhs.id)
+                        if imp and ':' in imp:
+                            m = next((m_ for m_ in repo.modules.values() if m_.dotted == imp.split(':')[0]), None)
+                            d = const_value(repo, m, imp.split(':')[1]) if m is not None else None
+                    rhs = d if d is not None else rhs
+                out |= {x.value for x in ast.walk(rhs) if isinstance(x, ast.Constant)}
+        return out
+    split_clean = all(BAD <= excluded_literals(v_, at_) for v_, at_ in kept)
+    drops_empty = all(any(pol_ and isinstance(e_, ast.Name) and e_.id == v_ for e_, pol_ in at_) or '' in excluded_literals(v_, at_) for v_, at_ in kept)
     ck.ob('R-C09-TAINT', srp, srp.node, 'split_remote_path drops empty components (repeated / leading / trailing separators)', drops_empty, '', construct='split drops empty')
     sep_pat = const_value(repo, repo.module('constants.py'), 'PATH_SEPERATOR_PATTERN')
     ck.ob('R-C09-TAINT', 'constants.py:PATH_SEPERATOR_PATTERN', 'src/aioslsk/constants.py', 'remote paths are split on both \\ and /', sep_pat is not None and
@@ -126,7 +154,7 @@ def run(eng: Engine, ck: Check):
                     init[unparse(t)] = unparse(n.value)
     carried_ = carried if len(loops) == 1 and 'carried' in dir() else []
     ok = len(rets) == 1 and isinstance(rets[0].value, ast.Tuple) and [unparse(x) for x in rets[0].value.elts] == carried_ and len(carried_) == 2 and \
-        init.get(carried_[0]) == ch.params[2] and init.get(carried_[1]) in ("''", '""')
+        (init.get(carried_[0]) == ch.params[2] or (carried_[0] == ch.params[2] and carried_[0] not in init)) and init.get(carried_[1]) in ("''", '""')
     ck.ob('R-C09-CHAIN', ch, ch.node, 'the chain starts at (download directory, empty name) and returns the final pair', ok, f'{init}', construct='chain start and result')
     cdp = eng.func(SHARES, 'SharesManager.calculate_download_path')
     x = calls_in(cdp.node)
@@ -137,7 +165,11 @@ def run(eng: Engine, ck: Check):
     grets = [expand_aliases(gdd, n.value) for n in walk_local(gdd.node) if isinstance(n, ast.Return) and n.value is not None]
     ok = len(grets) == 1 and phas(grets[0], 'os.path.abspath($x)') and (chain_str(pfirst(grets[0], 'os.path.abspath($x)')[0].args[0]) or '').endswith('_settings.shares.download')
     ck.ob('R-C09-INSIDE', gdd, gdd.node, 'the download directory is the absolute path of settings.shares.download', ok, '', construct='download dir')
-    pdp = eng.func(TM, 'TransferManager._prepare_download_path')
+    # the function of the transfer manager that chooses the local path (a helper of _download_file, or _download_file itself)
+    choosers = [f_ for f_ in eng.cls('TransferManager', TM).methods.values() if calls_on(f_.node, 'calculate_download_path')]
+    if len(choosers) != 1:
+        raise AnalysisError(f'R-C09-INSIDE: {len(choosers)} functions of TransferManager call calculate_download_path (expected 1)')
+    pdp = choosers[0]
     ck.visited(pdp)
     tp = [p_ for p_ in pdp.params if p_ != 'self'][0]
     facts = {}
@@ -224,16 +256,16 @@ def run(eng: Engine, ck: Check):
     df = eng.func(TM, 'TransferManager._download_file')
     ck.visited(df)
     c = eng.cfg(df)
-    prep = [n for x in calls_on(df.node, '_prepare_download_path') for n in c.nodes_for(x)]
+    prep = [n for x in calls_on(df.node, pdp.name if pdp is not df else 'calculate_download_path') for n in c.nodes_for(x)]
     opn = [n for n in c.nodes if n.kind == 'with_enter' and n.ast is not None and 'aiofiles.open' in unparse(n.ast.items[0].context_expr)]
     ck.floor('R-C09-RESERVE', min(len(prep), len(opn)), 1)
     if prep and opn:
         s = c.suspension_between(prep[0], opn[0])
-        inner = [n for n in walk_local(pdp.node) if isinstance(n, ast.Await)]
+        inner = [n for n in walk_local(pdp.node) if isinstance(n, ast.Await)] if pdp is not df else []
         reserved = any('local_path' in unparse(n) and ('_transfers' in unparse(n) or 'transfers' in unparse(n)) and isinstance(n, (ast.SetComp, ast.ListComp, ast.GeneratorExp, ast.For))
                        for n in walk_with_lambdas(pdp.node)) or any(call_name(x) in ('_reserve_local_path', 'reserve_local_path', 'is_local_path_reserved') for x in calls_in(pdp.node))
         ck.ob('R-C09-RESERVE', df, opn[0].ast, 'between choosing a not-yet-existing local path and creating the file nothing suspends, or the choice is checked against the '
               'local paths of the other transfers (in-memory reservation)', (s is None and not inner) or reserved,
-              f'the path is chosen in _prepare_download_path (exists-check on disk only), then the task suspends (line {s.lineno if s else inner[0].lineno}) before '
+              f'the path is chosen in {pdp.name} (exists-check on disk only), then the task suspends (line {s.lineno if s else inner[0].lineno}) before '
               'aiofiles.open(.., "ab") creates the file: two downloads of equally named files that start in the same window get the same local path and both append to it',
               construct='choose-then-create atomic')
